@@ -5,7 +5,9 @@
 //   x_case <cases.ndjson> <out.ndjson> <scratchdir> [start] [cpu_s] [flags]
 // cases: {"id":..,"src":"...","input":"<hex>","maxsteps":N}
 // flags: b = also dump the binary (header, image bytes, debug bytes), l = also the -S listing,
-//        t = also the hexsim -t trace text
+//        t = also the hexsim -t trace text,
+//        f = also the frame events of the run (taken BR: [0,target,areg]; STAM/STAI: [1,address,value];
+//            OPR BRB: [2,target,0]), at most "maxev" of them (default 4000), for spec/XFramesV
 // Same resume protocol as asm_case (exit 3 after a recorded CPU-budget timeout).
 #include <cassert>
 #include <csignal>
@@ -85,6 +87,7 @@ int main(int argc, char **argv) {
   bool fc = flags.find('c') != std::string::npos;   // compile only
   bool fk = flags.find('k') != std::string::npos;   // tokens only (--tokens)
   bool fo = flags.find('o') != std::string::npos;   // also the lowered and optimised directive lists
+  bool ff = flags.find('f') != std::string::npos;   // also frame events
   if (chdir(scratch.c_str()) != 0) return 2;
   signal(SIGVTALRM, on_alarm);
   std::string line, binpath = "x_case.bin";
@@ -95,7 +98,7 @@ int main(int argc, char **argv) {
     jfield(line, "input", hexin);
     std::string input;
     for (size_t i = 0; i + 1 < hexin.size(); i += 2) input += (char)strtol(hexin.substr(i, 2).c_str(), nullptr, 16);
-    long maxsteps = jnum(line, "maxsteps", 200000);
+    long maxsteps = jnum(line, "maxsteps", 200000), maxev = jnum(line, "maxev", 4000);
     if (fk) {
       std::ostringstream ts; std::string st = "ok";
       try { xcmp::Driver dr(ts); dr.run(xcmp::DriverAction::EMIT_TOKENS, src, false); } catch (const std::exception &) { st = "error"; }
@@ -141,13 +144,28 @@ int main(int argc, char **argv) {
     for (int k = 0; k < 8; k++) { std::string nm = "simout" + std::to_string(k); unlink(nm.c_str()); }
     std::istringstream pin(input); std::ostringstream pout;
     long steps = 0; int ret = 0; bool limit = false, unsafe = false;
-    std::string trace;
+    std::string trace, fev; long nev = 0; bool evtrunc = false;
     {
       auto P = std::make_unique<hexsim::Processor>(pin, pout);
       P->load(binpath.c_str());
       u32 *mem = P->verifMemory();
+      hexsim::Processor::VerifState prev = P->verifGetState();
       P->verifObserver = [&](const hexsim::Processor &p) {
         steps++;
+        if (ff) {
+          auto cur = p.verifGetState();
+          u32 ins = p.verifLastInstr() & 0xFF, opc = ins >> 4, opd = prev.oreg | (ins & 15);
+          int kind = -1; u32 x = 0, y = 0;
+          if (opc == 9) { kind = 0; x = cur.pc; y = cur.areg; }
+          else if (opc == 2) { kind = 1; x = opd; y = prev.areg; }
+          else if (opc == 8) { kind = 1; x = prev.breg + opd; y = prev.areg; }
+          else if (opc == 13 && opd == 0) { kind = 2; x = cur.pc; }
+          if (kind >= 0) {
+            if (nev < maxev) { char b[64]; snprintf(b, sizeof b, "%s[%d,%d,%d]", nev ? "," : "", kind, (int)x, (int)y); fev += b; nev++; }
+            else evtrunc = true;
+          }
+          prev = cur;
+        }
         if (!p.verifRunning()) return true;
         if (steps >= maxsteps) { limit = true; return false; }
         auto g = p.verifGetState();
@@ -194,6 +212,7 @@ int main(int argc, char **argv) {
       fprintf(g_out, ",\"lowered\":\"%s\",\"optimised\":\"%s\"", jesc(lo.str()).c_str(), jesc(op.str()).c_str());
     }
     if (ft) fprintf(g_out, ",\"trace\":\"%s\"", jesc(trace).c_str());
+    if (ff) fprintf(g_out, ",\"fev\":[%s],\"fevtrunc\":%s", fev.c_str(), evtrunc ? "true" : "false");
     fprintf(g_out, "}\n");
   }
   fclose(g_out);
